@@ -183,6 +183,21 @@ def build_cases(tier: str) -> List[Dict[str, Any]]:
     pairs = list(itertools.product(A2, A2))
     for a, b in pairs[:: stride]:
         cases.append(case_of(next(cid), [SETUP + [a, b]]))
+    # (1b) qubit allocation histories: every sequence of qalloc / qfree over three virtual ids (holes in the
+    #      used set, re-allocation after a free, faults on double allocation / double free), also split over
+    #      two subroutines of the same application
+    Q2 = 34
+    qpre = [I("set", Q0, 0), I("set", Q1, 1), I("set", Q2, 2)]
+    qops = [I(mn, q) for mn in ("qalloc", "qfree") for q in (Q0, Q1, Q2)]
+    for n in (3, 4) if tier == "quick" else (3, 4, 5):
+        seqs = list(itertools.product(qops, repeat=n))
+        for k, seq in enumerate(seqs[:: (1 if n < 5 else 3)]):
+            body = list(seq) + [I("h", Q0)]
+            if k % 2:
+                cut = 1 + k % (n - 1)
+                cases.append(case_of(next(cid), [qpre + body[:cut], body[cut:]], umsize=3))
+            else:
+                cases.append(case_of(next(cid), [qpre + body], umsize=3))
     # (2) two subroutines against the same application state: the second sees what the first left
     A1 = alphabet(1)
     rng = random.Random(C.seed() * 31 + 3)
